@@ -200,7 +200,7 @@ func fsvSpec() *edt.Spec {
 			if neg {
 				op, bop = "Int128.add", ty+".AddShifted"
 			}
-			twoS, s1 := cb("*", "2", S), cb("+", S, "1")
+			twoS, s1 := "("+S+" << 1)", cb("+", S, "1")
 			if S == "0" {
 				twoS, s1 = "0", "1"
 			}
